@@ -12,6 +12,15 @@ CORR = "correspondence evaluated inside Coq: cases_*.v written by the harness, m
 
 _here = os.path.dirname(os.path.abspath(__file__))
 PROPS, MANIFEST_TEXT = {}, {}
+# pylib/disabled.txt: "<Cxx> <reason>" per line — a property whose check exists but is not claimed yet
+DISABLED = {}
+_dis = os.path.join(_here, "disabled.txt")
+if os.path.exists(_dis):
+    for _l in open(_dis):
+        _l = _l.strip()
+        if _l and not _l.startswith("#"):
+            _k, _, _r = _l.partition(" ")
+            DISABLED[_k] = _r or "check under construction"
 for _m in sorted(pkgutil.iter_modules([os.path.join(_here, "propcfg")]), key=lambda m: m.name):
     if not _m.name.startswith("C"):
         continue
@@ -21,3 +30,5 @@ for _m in sorted(pkgutil.iter_modules([os.path.join(_here, "propcfg")]), key=lam
 
 _PENDING = "check not built yet; the property is within reach of the technique (DESIGN.md section 4) and is not claimed until its model, theorems and correspondence exist"
 NOT_APPLICABLE = {("C%02d" % i): _PENDING for i in range(1, 21)}
+for _k, _r in DISABLED.items():
+    NOT_APPLICABLE[_k] = "check built but not claimed yet: " + _r
